@@ -895,7 +895,7 @@ class ExprMixin:
             if ci is not None and self.p.lookup_method(ci, "__setitem__")[1] is not None:
                 return [Outcome("next" if x.kind == "ok" else x.kind, x.state, x.value)
                         for x in self.call_method(st, objv, "__setitem__", [idx, value], {}, frame, node)]
-            st.emit("MR", "setitem", site)
+            st.emit("MR", "setitem:" + vrepr(objv), site)
             self.w_event(st, "setitem", objv, vrepr(idx), value, site)
             return [Outcome("next", st)]
         raise AnalysisError(f"subscript store on {objv!r} at {site}")
@@ -935,7 +935,7 @@ class ExprMixin:
                     if r and r[-1] is None:
                         return r[:-1]
                     outs.extend(r)
-                    s.emit("MR", "delitem", site)
+                    s.emit("MR", "delitem:" + vrepr(objv), site)
                     self.w_event(s, "delitem", objv, vrepr(idx), None, site)
                     outs.append(Outcome("next", s))
                     return outs
